@@ -205,6 +205,13 @@ func ShapeSpecs() []*Spec {
 			{Name: "u8", Type: &Spec{Kind: KInt, Min: I64(0), Max: I64(5)}, Default: Str("3")},
 			{Name: "n", Type: &Spec{Kind: KInt, Min: I64(0)}},
 		}},
+		// collections in struct fields that the object requires: an empty list / map that the caller supplied is a
+		// supplied value (present, of length 0), not an unset field
+		{Kind: KObject, ID: "SColl2", Struct: "SColl", Props: []Prop{
+			{Name: "l", Type: &Spec{Kind: KList, Item: leafStr()}, Required: true},
+			{Name: "m", Type: &Spec{Kind: KMap, Key: leafStr(), Val: leafInt()}, Required: true},
+			{Name: "a", Type: &Spec{Kind: KAny}},
+		}},
 	}
 	return out
 }
